@@ -83,6 +83,8 @@ Inductive nkind :=
 Inductive instr :=
 | IEv (e : N)                                         (* log(e) *)
 | IProbe                                              (* probe(): logs 7; the k-th call interrupts *)
+| IProbeThrow                                         (* pthrow(): a probe that then panics with a catchable error:
+                                                         a catchable exception unwinds while the interrupt is pending *)
 | IThrow                                              (* throw (catchable) *)
 | ITry (b : code) (hc : bool) (c : code) (hf : bool) (f : code)
 | ICall (b : code)                                    (* JS -> JS call, same run loop *)
@@ -90,6 +92,7 @@ Inductive instr :=
 | IForOf (ret : option N) (bodies : codes)            (* for-of over a script iterator; one body per iteration;
                                                          ret = Some e: the iterator has a return() logging e *)
 | IGen (segs : codes)                                 (* g.next() once per segment of a generator body *)
+| IGenRet (pre fin : code)                            (* function*(){ try { pre; yield } finally { fin } }: g.next(); g.return() *)
 | IAsync (pre post : code)                            (* async function: pre; await; post (post as a promise job) *)
 | IJob (b : code)                                     (* Promise.resolve().then(function(){ b }) *)
 with code := CNil | CCons (i : instr) (c : code)
@@ -176,12 +179,12 @@ Fixpoint close_iters (n : nat) (l : list (option N)) (fl : bool) (lg : list N) :
       end
   end.
 
-(* returns (aborted, state): when the interrupted return() call escapes, the truncation is skipped
-   (the uncatchable payload then reaches the next recover point, which drops the stacks) *)
+(* returns (aborted, state): when the interrupted return() call escapes, the panic goes past handleThrow;
+   the truncation still happens (deferred dropStacks, bf68b95) *)
 Definition restore_stacks (c : cfg) (itlen : nat) s : bool * st :=
   let n := length (its s) - itlen in
   let '(a, l', lg') := close_iters n (its s) (flag s) (log s) in
-  (a, mkSt (cs s) (ts s) l' (jq s) (flag s) (ival s) lg' (pcnt s) (clock s) (late s)).
+  (a, mkSt (cs s) (ts s) (if a then skipn n (its s) else l') (jq s) (flag s) (ival s) lg' (pcnt s) (clock s) (late s)).
 
 (* vm.dropStacks(iterLen, _) (fix 22853aa): truncate WITHOUT closing the iterators *)
 Definition drop_stacks (itlen : nat) s : st := set_its (skipn (length (its s) - itlen) (its s)) s.
@@ -220,6 +223,7 @@ Section Exec.
     match i with
     | IEv e => (ONorm, add_log e s)
     | IProbe => (ONorm, do_probe c s)
+    | IProbeThrow => (OThrow, do_probe c s)
     | IThrow => (OThrow, s)
     | ITry b hc cb hf fb =>
         let s0 := push_frame (FHandler hc hf) s in
@@ -268,6 +272,51 @@ Section Exec.
         let '(o, s1) := exec_seq bodies s0 in
         match o with ONorm => (ONorm, set_its (tl (its s1)) s1) | _ => (o, s1) end
     | IGen segs => exec_gen segs s
+    | IGenRet pre fin =>
+        (* g.next(): native context; enterNext = context, marker frame, extra context; then the body's try frame *)
+        let s1 := push_frame FMarker (push_ctx (push_ctx s)) in
+        let dm := length (ts s1) in
+        let s2 := push_frame (FHandler false true) (push_ctx s1) in
+        let dh := length (ts s2) in
+        (* yield / ret, popTryFrame, popCtx, the native call's popCtx *)
+        let leave_gen (s : st) := pop_ctx (pop_ctx (pop_frame (pop_ctx s))) in
+        (* a catchable exception leaves the generator: handleThrow at the marker; next()/return() panic with it *)
+        let gen_throw (s : st) : outcome * st :=
+          let '(o', s') := restore_to c dm s in
+          match o' with
+          | OThrow => (OThrow, pop_ctx (pop_frame s'))
+          | _ => (o', pop_ctx (pop_frame (unwind_u c s')))
+          end in
+        (* uncatchable: handleThrow at the marker, then the deferred leaveOnPanic *)
+        let gen_intr (o : outcome) (s : st) : outcome * st := (o, pop_ctx (pop_frame (unwind_u c s))) in
+        let '(o1, s3) := exec_c pre s2 in
+        match o1 with
+        | ONorm =>
+            (* yield inside the try block: its frame is saved with the generator.  g.return(): same entry, the
+               frame is restored and its finally block runs (enterNextFinallyFrame) *)
+            let s4 := leave_gen (pop_frame s3) in
+            let s5 := push_frame (FHandler false false) (push_ctx (push_frame FMarker (push_ctx (push_ctx s4)))) in
+            let '(o2, s6) := exec_c fin s5 in
+            match o2 with
+            | ONorm => (ONorm, leave_gen (pop_frame s6))
+            | OThrow => gen_throw s6
+            | OIntr _ => gen_intr o2 s6
+            end
+        | OThrow =>
+            (* the finally block runs for the exception, then it is rethrown out of next() *)
+            let '(o', s4) := restore_to c dh s3 in
+            match o' with
+            | OThrow =>
+                let '(o2, s5) := exec_c fin s4 in
+                match o2 with
+                | ONorm => gen_throw (pop_frame s5)
+                | OThrow => gen_throw s5
+                | OIntr _ => gen_intr o2 s5
+                end
+            | _ => gen_intr o' s4
+            end
+        | OIntr _ => gen_intr o1 s3
+        end
     | IAsync pre post =>
         (* asyncRunner.start: gen.enter() = pushCtx; pushTryFrame(marker); then the function's own frame *)
         let s0 := push_ctx s in
